@@ -71,11 +71,15 @@ def gen_case(rng, arm, tier, k=0):
     if kind == "semi":
         # D = [labeled; unlabeled; rest]
         n_unl = rng.randint(0, N - n_lab)
-        lab = list(range(n_lab))
-        rng.shuffle(lab)
-        train = lab
-        unl = list(range(n_lab, n_lab + n_unl))
-        test = list(range(n_lab + n_unl, N)) or lab[:1]
+        unl = list(range(n_lab, n_lab + n_unl))  # the API numbers unlabeled nodes n_lab, n_lab+1, ...
+        others = [i for i in range(N) if i not in unl]
+        if rng.random() < 0.5:
+            rng.shuffle(others)  # labelled rows may be stored anywhere outside that block
+            train = others[:n_lab]
+        else:
+            train = list(range(n_lab))
+            rng.shuffle(train)
+        test = [i for i in others if i not in train] or train[:1]
     else:
         idx = list(range(N))
         if rng.random() < 0.85:
@@ -176,7 +180,7 @@ def valid(case):
     if sorted(set(ys)) != list(range(max(ys) + 1)):
         return False
     if case["kind"] == "semi":
-        if sorted(tr) != list(range(len(tr))) or un != list(range(len(tr), len(tr) + len(un))):
+        if un != list(range(len(tr), len(tr) + len(un))) or set(tr) & set(un):
             return False
     if case["kind"] == "unsup" and len(tr) < 3:
         return False
